@@ -2,7 +2,7 @@
     Adapted from coq/C03/{Rounding,Flt,SciIdem}.v (b-C03: [sci_unique], [sci_spec], [round53_rel],
     [sci_trip]); here stated without C03's [dy] record and with the conclusion for every
     fraction of the same value (the re-read double is stored in normal form).
-    For a decimal of p+1 <= 15 digits and decimal exponent in [-300, 300]: the double nearest
+    For a decimal of p+1 <= 15 digits and decimal exponent in [-307, 307]: the double nearest
     to it prints, with p decimals, the same p+1 digits and the same exponent. *)
 From Coq Require Import List Bool Arith ZArith NArith Lia QArith Qabs Lqa Qpower.
 From PTBase Require Import Fmt.
@@ -356,7 +356,7 @@ Proof.
 Qed.
 
 (** * the trip of a %w.pe field: text -> nearest double -> text *)
-Lemma pow_range : B2 ^ (-1022) <= B10 ^ (-300).
+Lemma pow_range : B2 ^ (-1022) <= B10 ^ (-307).
 Proof. vm_compute. intro H. discriminate H. Qed.
 
 (** the decimal [N * 10^e10] as a fraction *)
@@ -381,7 +381,7 @@ Section SciTrip.
   Variable p N k : Z.
   Hypothesis Hp : (0 <= p <= 14)%Z.
   Hypothesis HN : (10 ^ p <= N < 10 ^ (p + 1))%Z.
-  Hypothesis Hk : (-300 <= k)%Z.
+  Hypothesis Hk : (-307 <= k)%Z.
   Let nd := fst (dec_nd N (k - p)).
   Let dd := snd (dec_nd N (k - p)).
   Let m := fst (round53 nd dd).
@@ -413,7 +413,7 @@ Section SciTrip.
     (* the decimal is in the normal range *)
     assert (RANGE : B2 ^ (-1022) <= qv nd dd).
     { rewrite Qd. pose proof pow_range as PR.
-      assert (M : B10 ^ (-300) <= B10 ^ k) by (apply Qpower_le_compat_l; [exact Hk|pose proof (Bq_gt1 10 ten_gt1); lra]).
+      assert (M : B10 ^ (-307) <= B10 ^ k) by (apply Qpower_le_compat_l; [exact Hk|pose proof (Bq_gt1 10 ten_gt1); lra]).
       set (a := B10 ^ (p - k)) in *. set (c := B10 ^ (k - p)) in *. set (t := B10 ^ k) in *. set (M' := inject_Z N) in *. set (P := inject_Z (10 ^ p)) in *.
       assert (TC : t == P * c) by (rewrite <- TA; rewrite <- Qmult_assoc, AC; ring).
       assert (t <= M' * c) by (rewrite TC; nra). lra. }
